@@ -1,7 +1,11 @@
 // Package rules holds the rule instances per property.
 package rules
 
-import "verif/rcheck/engine"
+import (
+	"go/types"
+
+	"verif/rcheck/engine"
+)
 
 // Prop describes how one property is decided.
 type Prop struct {
@@ -40,4 +44,17 @@ func checkShellUses(c *engine.Ctx, rule string, only func(name string) bool) {
 				"created at "+c.Prog.Pos(u.Shell.Pos())+"; "+u.What+" is reachable without a successful client Get/Patch/Update/Create on it")
 		}
 	}
+}
+
+// structFields lists the field names of a named struct type.
+func structFields(n interface{ Underlying() types.Type }) []string {
+	st, ok := n.Underlying().(*types.Struct)
+	if !ok {
+		return nil
+	}
+	var out []string
+	for i := 0; i < st.NumFields(); i++ {
+		out = append(out, st.Field(i).Name())
+	}
+	return out
 }
